@@ -14,7 +14,12 @@ RULE = (
     "font by seeded disjoint or overlapping partitions of its character set (each part produced with the subsetter, layout kept), "
     "(b) seeded tuples of different corpus fonts with equal upem, (c) FontBuilder-generated TrueType/CFF fonts with generated "
     "outlines, overlapping and disjoint cmaps, identical and differing duplicate glyphs, with/without kerning and ligatures "
-    "compiled from generated feature text. Merger().merge(paths) -> save -> HarfBuzz: every character of the union has a nominal "
+    "compiled from generated feature text (optionally registered under the font's own script / language system, one of them as "
+    "the required feature), code points incl. default ignorables, U+25CC, space and hyphen; (d) 'feaprog': 2-3 fonts over the "
+    "C11 skeleton glyph set (same glyph names in every input, so every glyph of the later inputs is renamed), each with its own "
+    "private-use character block, rectangle outlines unique per (input, glyph) and GSUB/GPOS/GDEF compiled from an independent "
+    "program of the C11 feature grammar (all lookup types, lookup references, lookup flags, mark filtering sets, script/language "
+    "statements); probes = glyph runs aimed at that input's rules, typed in its characters, under its language systems. Merger().merge(paths) -> save -> HarfBuzz: every character of the union has a nominal "
     "glyph whose outline and advance equal those in the FIRST input mapping it; glyph names unique; for pairwise disjoint "
     "character sets, seeded texts over one input's characters shape to the same sequence of (outline, advance, offsets) in the "
     "merged font as in that input alone. non-trivial = some glyph was renamed because of a name clash, or a code point is mapped "
@@ -23,7 +28,8 @@ RULE = (
 ASSUMPTIONS = [
     "documented restrictions respected by construction: equal units per em, same outline flavour, static fonts, duplicate-glyph disambiguation only when every input has GSUB",
     "texts are shaped with default features and explicit script 'latn'/'DFLT' chosen from the input; glyphs are identified by outline+advance, never by name",
-    "U+25CC and default-ignorable characters are skipped in the duplicate-mapping clause (the merger documents special handling)",
+    "generated fonts that register features under their own script tag keep to that script's letters, one font per script (script records of the inputs are united by tag, so a font relying on DFLT for a script another input names explicitly is not a compatible input)",
+    "U+25CC and default-ignorable characters are held to the same rule as every character (first supporting input wins); the merger only refrains from creating a 'locl' disambiguation for them",
 ]
 
 
@@ -123,12 +129,28 @@ def _gen_font(spec):
     fb.setupOS2()
     fb.setupPost()
     fea = []
+    reg = spec.get("reg")
+    used = set()
+
+    def head(table):
+        # feaLib accepts one required feature per language system (whichever table it lives in)
+        if not reg:
+            return ""
+        req = reg["required"] and not used
+        used.add(table)
+        return "  script %s;\n  language %s%s;\n" % (reg["script"], reg["lang"], " required" if req else "")
+
     if spec.get("kern"):
-        fea.append("feature kern {\n" + "\n".join("  pos %s %s %d;" % k for k in spec["kern"]) + "\n} kern;")
+        fea.append("feature kern {\n" + head("GPOS") + "\n".join("  pos %s %s %d;" % k for k in spec["kern"]) + "\n} kern;")
     if spec.get("liga"):
-        fea.append("feature liga {\n" + "\n".join("  sub %s %s by %s;" % l for l in spec["liga"]) + "\n} liga;")
+        fea.append("feature liga {\n" + head("GSUB") + "\n".join("  sub %s %s by %s;" % l for l in spec["liga"]) + "\n} liga;")
+    if spec.get("single"):
+        fea.append("feature ss01 {\n" + head("GSUB") + "\n".join("  sub %s by %s;" % l for l in spec["single"]) + "\n} ss01;")
     if fea:
-        fb.addOpenTypeFeatures("languagesystem DFLT dflt;\nlanguagesystem latn dflt;\n" + "\n".join(fea))
+        ls = "languagesystem DFLT dflt;\nlanguagesystem latn dflt;\n"
+        if reg:
+            ls = "languagesystem DFLT dflt;\n" + ("languagesystem %s dflt;\n" % reg["script"]) + ("" if reg["lang"] == "dflt" else "languagesystem %s %s;\n" % (reg["script"], reg["lang"]))
+        fb.addOpenTypeFeatures(ls + "\n".join(fea))
     b = io.BytesIO()
     fb.font.save(b)
     return b.getvalue()
@@ -137,14 +159,29 @@ def _gen_font(spec):
 def _gen_specs(rnd, n):
     """n generated font specs sharing a code-point universe so that overlaps can occur"""
     cff = rnd.random() < 0.5
-    cps = list(range(0x61, 0x7B)) + list(range(0x410, 0x420))
+    # letters of three scripts, plus characters the cmap merger singles out (default ignorables, U+25CC) and
+    # characters fonts of any script share (space, hyphen)
+    blocks = {"latn": list(range(0x61, 0x7B)), "cyrl": list(range(0x430, 0x440)), "grek": list(range(0x3B1, 0x3C0))}
+    special = [0x20, 0x2D, 0xAD, 0x200B, 0x200D, 0x2060, 0xFE0F, 0xFEFF, 0x25CC]
+    cps = blocks["latn"] + blocks["cyrl"] + special
     specs = []
     disjoint = rnd.random() < 0.5
+    by_script = disjoint and rnd.random() < 0.6  # each font keeps to one script and registers its features there
     pool = cps[:]
     rnd.shuffle(pool)
+    scripts = list(blocks)
+    rnd.shuffle(scripts)
+    if by_script:
+        # one font per script: a font that supports Cyrillic letters through the DFLT script only would, once merged with a
+        # font that brings a 'cyrl' script record, be shaped under that record (script lists are united by tag)
+        n = min(n, len(scripts))
     for i in range(n):
         k = rnd.randrange(3, 9)
-        if disjoint:
+        script = None
+        if by_script and i < len(scripts):
+            script = scripts[i]
+            mine = rnd.sample(blocks[script], min(k, len(blocks[script])))
+        elif disjoint:
             mine, pool = pool[:k], pool[k:]
         else:
             mine = rnd.sample(cps, k)
@@ -172,19 +209,73 @@ def _gen_specs(rnd, n):
             lig = "%s_%s" % (a, b)
             glyphs.append([lig, None, 700, [[0, 0, 600, 650], [100, 100, 200, 200]]])
             liga.append((a, b, lig))
-        specs.append(dict(cff=cff, tag="F%d" % i, glyphs=glyphs, kern=kern, liga=liga))
+        single = []
+        if rnd.random() < 0.5 and len(names) >= 2:
+            a, b = rnd.sample(names, 2)
+            single.append((a, b))
+        # how the features are registered: default language systems, or under the font's own script, optionally as the
+        # REQUIRED feature of a language system (LangSys.ReqFeatureIndex)
+        reg = None
+        if script is not None:
+            reg = dict(script=script, lang=rnd.choice(["dflt", "dflt", {"latn": "TRK ", "cyrl": "SRB ", "grek": "ELL "}[script]]), required=rnd.random() < 0.6)
+        specs.append(dict(cff=cff, tag="F%d" % i, glyphs=glyphs, kern=kern, liga=liga, single=single, reg=reg))
     return specs, disjoint
+
+
+FEA_BLOCK = 0xE000  # input i maps glyph g of the C11 skeleton to U+E000 + 0x100 * i + gid (private use: no normalisation)
+
+
+def _fea_input(pseed, idx):
+    """Input font i of a 'feaprog' case: the C11 skeleton glyph set with rectangle outlines and advances that are unique
+    per (input, glyph), a Unicode cmap over a private-use block of its own, and GSUB/GPOS/GDEF compiled by feaLib from a
+    program of the C11 grammar (every lookup type, lookup references, lookup flags, mark filtering sets, scripts and
+    languages). Returns (bytes, program)."""
+    from fontTools.feaLib.builder import addOpenTypeFeaturesFromString
+    from fontTools.pens.ttGlyphPen import TTGlyphPen
+    from fontTools.ttLib import TTFont
+
+    from vf import gen_fea
+
+    program = gen_fea.gen_program(pseed)
+    text = gen_fea.print_program(program)
+    font = TTFont(io.BytesIO(gen_fea.skeleton_bytes()), recalcTimestamp=False)
+    glyf = font["glyf"]
+    hmtx = font["hmtx"]
+    for g in gen_fea.GLYPHS:
+        gi = gen_fea.GID[g]
+        pen = TTGlyphPen(None)
+        w, h = 10 * (gi + 1), 10 * (idx + 1)
+        pen.moveTo((0, 0))
+        pen.lineTo((0, h))
+        pen.lineTo((w, h))
+        pen.lineTo((w, 0))
+        pen.closePath()
+        glyf[g] = pen.glyph()
+        adv = gen_fea.ADV[g]
+        hmtx[g] = (adv + idx if adv else 0, 0)
+    m = {FEA_BLOCK + 0x100 * idx + gen_fea.GID[g]: g for g in gen_fea.GLYPHS if g != ".notdef"}
+    for t in font["cmap"].tables:
+        t.cmap = dict(m)
+    font["name"].setName("Fea%d" % idx, 1, 3, 1, 0x409)
+    font["name"].setName("Fea%d Regular" % idx, 4, 3, 1, 0x409)
+    addOpenTypeFeaturesFromString(font, text)
+    b = io.BytesIO()
+    font.save(b)
+    return b.getvalue(), program
 
 
 def build_inputs(case):
     """-> list of bytes, flags"""
     rnd = random.Random(case["seed"])
     kind = case["kind"]
+    if kind == "feaprog":
+        res = [_fea_input(subseed(case["seed"], "prog", i), i) for i in range(case["n"])]
+        return [r[0] for r in res], dict(disjoint=True, programs=[r[1] for r in res])
     if kind == "partition":
         data = _sfnt(case["fid"])
         from vf.hbref import HBFont
 
-        chars = [c for c in HBFont(data).unicodes() if c not in (0x25CC,)]
+        chars = list(HBFont(data).unicodes())
         rnd.shuffle(chars)
         chars = chars[: rnd.randrange(6, 60)]
         n = case["n"]
@@ -201,7 +292,14 @@ def build_inputs(case):
     if kind == "corpus":
         return [_sfnt(f) for f in case["fids"]], dict(disjoint=False)
     specs, disjoint = _gen_specs(rnd, case["n"])
-    return [_gen_font(s) for s in specs], dict(disjoint=disjoint)
+    return [_gen_font(s) for s in specs], dict(disjoint=disjoint, regs=[s.get("reg") for s in specs])
+
+
+_DI = [(0xAD, 0xAD), (0x34F, 0x34F), (0x61C, 0x61C), (0x115F, 0x1160), (0x17B4, 0x17B5), (0x180B, 0x180F), (0x200B, 0x200F), (0x202A, 0x202E), (0x2060, 0x206F), (0x3164, 0x3164), (0xFE00, 0xFE0F), (0xFEFF, 0xFEFF), (0xFFA0, 0xFFA0), (0xFFF0, 0xFFF8), (0x1BCA0, 0x1BCA3), (0x1D173, 0x1D17A), (0xE0000, 0xE0FFF)]
+
+
+def _default_ignorable(cp):
+    return any(a <= cp <= b for a, b in _DI)
 
 
 def _glyph_key(hbf, gid):
@@ -295,7 +393,10 @@ def run_case(case, acc):
                 conflicting = True
     # --- disjoint inputs: shaping of each input's texts is unchanged -----------------------------------
     layout_inputs = sum(1 for f in fonts if "GSUB" in f or "GPOS" in f)
-    if flags["disjoint"] and not dup:
+    fired = 0
+    if flags.get("programs"):
+        fired = _probe_programs(acc, case, flags["programs"], hbs, hm, fonts)
+    elif flags["disjoint"] and not dup:
         rnd = random.Random(case["seed"] ^ 0x5EED)
         for i, h in enumerate(hbs):
             # the shaper's Unicode normalisation may compose base+mark (or Hangul jamo) sequences into a precomposed
@@ -303,18 +404,29 @@ def run_case(case, acc):
             # change to this input's behaviour: probe texts avoid combining marks and conjoining jamo
             import unicodedata
 
-            chars = sorted(c for c in charsets[i] if not unicodedata.category(chr(c)).startswith("M") and not (0x1100 <= c <= 0x11FF))
-            script = "latn" if any(0x41 <= c <= 0x24F for c in chars) else None
-            for t in shapecmp.random_texts(chars, rnd, case.get("ntexts", 10), maxlen=6):
-                ra = h.shape_text(t, script=None, direction="ltr")
-                rb = hm.shape_text(t, script=None, direction="ltr")
+            # ... and default-ignorable characters: HarfBuzz replaces them by an invisible space glyph when the font has
+            # U+0020 and deletes them otherwise, so their treatment follows the merged repertoire as well
+            chars = sorted(c for c in charsets[i] if not unicodedata.category(chr(c)).startswith("M") and not (0x1100 <= c <= 0x11FF) and not _default_ignorable(c))
+            reg = (flags.get("regs") or [None] * len(hbs))[i]
+            settings = [(None, None, None)]
+            if reg:
+                # the language system the input registered its features under (possibly as the required feature),
+                # with the optional feature also switched on explicitly
+                lang = None if reg["lang"] == "dflt" else reg["lang"].strip()
+                settings = [(reg["script"], lang, None), (reg["script"], lang, {"ss01": True}), (None, None, None)]
+            texts = shapecmp.random_texts(chars, rnd, case.get("ntexts", 10), maxlen=6)
+            for ti, t in enumerate(texts):
+                sc, lg, feats = settings[ti % len(settings)]
+                ra = h.shape_text(t, script=sc, language=lg, features=feats, direction="ltr")
+                rb = hm.shape_text(t, script=sc, language=lg, features=feats, direction="ltr")
                 bad = None
                 if len(ra) != len(rb):
                     bad = "glyph count %d vs %d" % (len(ra), len(rb))
                 else:
+                    cut = 6 if "GPOS" in fonts[i] else 4  # offsets only when they are the input's own GPOS data (see _probe_programs)
                     for k, (a, b) in enumerate(zip(ra, rb)):
-                        if a[1:] != b[1:]:
-                            bad = "glyph %d: cluster/advance/offset %r vs %r" % (k, a[1:], b[1:])
+                        if a[1:cut] != b[1:cut]:
+                            bad = "glyph %d: cluster/advance/offset %r vs %r" % (k, a[1:cut], b[1:cut])
                             break
                         dres = _same_glyph(h, a[0], hm, b[0])
                         if dres:
@@ -330,7 +442,124 @@ def run_case(case, acc):
         labels.append("conflicting-duplicate")
     if layout_inputs >= 2:
         labels.append("layout-in->=2-inputs")
-    acc.case(case, nontrivial=renamed or conflicting or layout_inputs >= 2, labels=labels, sample=case if renamed else None)
+    for reg in flags.get("regs") or []:
+        if reg:
+            labels.append("script-specific-features" + (":required" if reg["required"] else ""))
+    if any(cp in cs for cs in charsets for cp in (0xAD, 0x200B, 0x200D, 0x2060, 0xFE0F, 0xFEFF, 0x25CC)):
+        labels.append("default-ignorable-or-dotted-circle" + (":shared" if any(cp in charsets[a] and cp in charsets[b] for cp in (0xAD, 0x200B, 0x200D, 0x2060, 0xFE0F, 0xFEFF, 0x25CC) for a in range(len(charsets)) for b in range(a)) else ""))
+    if flags.get("programs"):
+        labels.append("feaprog:rule-fired" if fired else "feaprog:no-rule-fired")
+    acc.case(case, nontrivial=(renamed or conflicting or layout_inputs >= 2) and (fired > 0 or not flags.get("programs")), labels=labels, sample=case if renamed else None)
+
+
+def _langsys_map(font):
+    out = {}
+    for T in ("GSUB", "GPOS"):
+        if T in font and font[T].table.ScriptList is not None:
+            m = {}
+            for sr in font[T].table.ScriptList.ScriptRecord:
+                m[str(sr.ScriptTag)] = set(str(l.LangSysTag) for l in sr.Script.LangSysRecord)
+            out[T] = m
+    return out
+
+
+def safe_settings(fonts, i):
+    """(script, language) pairs under which HarfBuzz selects, in the merged font, the union of the language systems it
+    selects in input i alone. Script lists of the inputs are united by tag, so a probe must name a script that input i
+    itself declares in each of its layout tables (otherwise input i alone falls back to DFLT while the merged font
+    finds another input's record of that script), and a language that input i declares there or that no other input
+    declares under that script."""
+    maps = [_langsys_map(f) for f in fonts]
+    mine = maps[i]
+    tables = list(mine)
+    if not tables:
+        return []
+    scripts = set.intersection(*[set(mine[T]) for T in tables])
+    out = []
+    for S in sorted(scripts):
+        langs = set.union(*[mine[T][S] for T in tables]) | {"dflt"}
+        for L in sorted(langs):
+            ok = True
+            for T in tables:
+                if L == "dflt" or L in mine[T][S]:
+                    continue
+                if any(L in maps[j].get(T, {}).get(S, ()) for j in range(len(fonts)) if j != i):
+                    ok = False
+            if ok:
+                out.append((S, L))
+    return out
+
+
+def _probe_programs(acc, case, programs, hbs, hm, fonts):
+    """feaprog: glyph runs aimed at the rules of input i's own program (C11's run generator), typed as input i's
+    characters, shaped under the language systems and features of that program, alone and in the merged font."""
+    from props import c11
+    from vf import gen_fea
+    from vf.ref_layout import Layout
+
+    fired = 0
+    all_tags = sorted({t["tag"] for p in programs for t in p["top"] if t["k"] == "feature"})
+    rnd = random.Random(case["seed"] ^ 0xFEA)
+    for i, program in enumerate(programs):
+        layout = Layout(program)
+        feats = [t for t in program["top"] if t["k"] == "feature"]
+        if not feats:
+            continue
+        vocab = c11.vocabulary(program)
+        if not vocab:
+            continue
+        nruns = case.get("nruns", 10)
+        safe = safe_settings(fonts, i)
+        if not safe:
+            acc.label("feaprog:input-without-safe-language-system")
+            continue
+        for k in range(nruns):
+            feat = feats[k % len(feats)]
+            script, lang = c11.gen_langsys(rnd, program, feat)
+            if (script, lang) not in safe:
+                same = [x for x in safe if x[0] == script]
+                script, lang = rnd.choice(same or safe)
+            run = c11.gen_run(rnd, layout, feat, vocab, biased=(k < nruns - 2))
+            if not run:
+                continue
+            value = rnd.choice([1, 1, 2])
+            features = {t: False for t in c11.DEFAULT_OFF + all_tags}
+            features[feat["tag"]] = value
+            if k % 3 == 2:
+                features = {t: True for t in all_tags}  # everything on
+            text = "".join(chr(FEA_BLOCK + 0x100 * i + gen_fea.GID[g]) for g in run)
+            hlang = None if lang == "dflt" else lang.strip()
+            ra = hbs[i].shape_text(text, features=features, script=script, language=hlang, direction="ltr")
+            rb = hm.shape_text(text, features=features, script=script, language=hlang, direction="ltr")
+            plain = [(hbs[i].nominal(ord(ch)), j, hbs[i].h_advance(hbs[i].nominal(ord(ch))), 0, 0, 0) for j, ch in enumerate(text)]
+            if ra != plain:
+                fired += 1
+            bad = None
+            if len(ra) != len(rb):
+                bad = "glyph count %d vs %d" % (len(ra), len(rb))
+            else:
+                # an input without GPOS gets HarfBuzz's fallback mark positioning, which the merged font (GPOS from another
+                # input) does not: offsets are compared only when they come from the input's own GPOS
+                # (the same holds for the marks of an input whose GPOS has no 'mark' feature)
+                has_gpos = "GPOS" in fonts[i]
+                has_mark_feature = has_gpos and any(fr.FeatureTag == "mark" for fr in fonts[i]["GPOS"].table.FeatureList.FeatureRecord)
+                marks = set()
+                if "GDEF" in fonts[i] and fonts[i]["GDEF"].table.GlyphClassDef is not None:
+                    marks = {n for n, c in fonts[i]["GDEF"].table.GlyphClassDef.classDefs.items() if c == 3}
+                for j, (a, b) in enumerate(zip(ra, rb)):
+                    is_mark = fonts[i].getGlyphName(a[0]) in marks
+                    cut = 6 if (has_gpos and (has_mark_feature or not is_mark)) else 4
+                    if a[1:cut] != b[1:cut]:
+                        bad = "glyph %d: cluster/advance/offset %r vs %r" % (j, a[1:cut], b[1:cut])
+                        break
+                    dres = _same_glyph(hbs[i], a[0], hm, b[0])
+                    if dres:
+                        bad = "glyph %d differs: %s" % (j, dres)
+                        break
+            if bad:
+                acc.fail("shaping", "feaprog-input-shapes-differently", "input %d run %r feature %s=%s script %s lang %s: %s" % (i, run, feat["tag"], value, script, lang, bad), case)
+                return fired
+    return fired
 
 
 def jobs(tier, seed):
@@ -338,7 +567,7 @@ def jobs(tier, seed):
     rnd = random.Random(subseed(seed, "c18"))
     ents = corpus.fonts(_eligible)
     J = []
-    npart = 1200 if thorough else 60
+    npart = 1200 if thorough else 120
     for i in range(npart):
         e = rnd.choice(ents)
         J.append(dict(name="partition-%d" % i, kind="partition", fid=e["id"], n=rnd.choice([2, 2, 3, 4]), overlap=rnd.random() < 0.4, seed=subseed(seed, "p", i)))
@@ -349,14 +578,17 @@ def jobs(tier, seed):
         # "compatible" fonts: same units per em, same flavour and the same set of non-layout tables
         groups.setdefault((e.get("upem"), "CFF " in e["tables"], tuple(sorted(set(e["tables"]) - opt))), []).append(e["id"])
     groups = [g for g in groups.values() if len(g) >= 2]
-    ncorp = 400 if thorough else 20
+    ncorp = 400 if thorough else 40
     for i in range(ncorp):
         g = rnd.choice(groups)
         k = min(len(g), rnd.choice([2, 2, 3]))
         J.append(dict(name="corpus-%d" % i, kind="corpus", fids=rnd.sample(g, k), seed=subseed(seed, "c", i)))
-    ngen = 2400 if thorough else 90
+    ngen = 4800 if thorough else 360
     for i in range(ngen):
         J.append(dict(name="generated-%d" % i, kind="generated", n=rnd.choice([2, 2, 3, 4]), seed=subseed(seed, "g", i)))
+    nfea = 3000 if thorough else 160
+    for i in range(nfea):
+        J.append(dict(name="feaprog-%d" % i, kind="feaprog", n=rnd.choice([2, 2, 3]), seed=subseed(seed, "f", i)))
     return J
 
 
